@@ -27,7 +27,7 @@ func (w *Worker) genC04(rc *simapi.RunConfig) {
 	wl := w.genWorkload(r, pkgs, true)
 	cliIndex := rc.Index - rc.Index/3
 	saturation := false
-	if isInterplay(pkgs[0]) && (cliIndex/len(w.visitSchedule()))%2 == 0 && cliIndex%3 == 0 {
+	if isHandWritten(pkgs[0]) && (cliIndex/len(w.visitSchedule()))%2 == 0 && cliIndex%3 == 0 {
 		saturation = true
 		// saturation run: every checker at once over an interplay package, no
 		// semaphore ordering between any two of them
